@@ -252,7 +252,10 @@ pub fn run(ctx: &Ctx, rep: &mut Report) {
         for op in ops.iter() {
             for d in &depths {
                 for t in threads {
-                    if ctx.quick() && *d == 100_000 && !(ctx.build == "release" && t == "main8m") {
+                    // quick: 10^5 only in the release build, on the main thread for every row, and also on
+                    // the 2 MiB thread for the two rows the property holds for today (flat lists, recursion)
+                    let holds_today = matches!(*dir, "cdr-nested-list" | "non-tail-recursion");
+                    if ctx.quick() && *d == 100_000 && !(ctx.build == "release" && (t == "main8m" || holds_today)) {
                         continue;
                     }
                     cells.push(format!("{}:{}:{}:{}", dir, op, d, t));
